@@ -22,7 +22,7 @@ RULE = ("cases = model {constant, exponential, skyride, skygrid, piecewise-linea
         "non-trivial = n >= 3; distinct by (model, n, scheme, grid style, entry, seed)")
 ASSUMPTIONS = [
     "documented N(t): constant theta; theta*exp(-g t); skyride theta_k on the k-th inter-coalescent interval; skygrid theta_k on [g_{k-1},g_k), last value beyond the grid; piecewise-linear between grid points (0,g_0,...) and constant beyond",
-    "growth rate g = 0 is documented as unsupported and not generated; |g * interval| >= 1e-6",
+    "growth rate g = 0 is documented as unsupported and not generated (rates down to 1e-30 / tree height are)",
     "the soft (temperature) skygrid is an approximation by design and is not compared",
     "piecewise-exponential has no documented N(t): it is compared with the skygrid in the limit of vanishing growth only",
 ]
@@ -59,6 +59,12 @@ def cases(tier, seed):
     for i in range(24 if tier == "quick" else 200):
         out.append({"model": "exponential", "n": int(rng.choice([2, 3, 5, 8, 20])), "scheme": str(rng.choice(["iso", "serial", "ties"])), "grid_style": "regular",
                     "entry": str(rng.choice(["data", "tree"])), "batch": int(rng.choice([0, 0, 2])), "seed": int(rng.integers(2**31)), "steep_decline": float(rng.uniform(720.0, 5000.0))})
+    # ... and with a growth rate next to zero (where optimisers and samplers pass through: the CLI puts a Laplace(0, 1) prior on it): the closed
+    # form (exp(g t1) - exp(g t0)) / (theta g) must not cancel
+    for i in range(20 if tier == "quick" else 160):
+        out.append({"model": "exponential", "n": int(rng.choice([2, 3, 5, 8, 20])), "scheme": str(rng.choice(["iso", "serial", "ties"])), "grid_style": "regular",
+                    "entry": str(rng.choice(["data", "tree"])), "batch": int(rng.choice([0, 0, 2])), "seed": int(rng.integers(2**31)),
+                    "tiny_growth": float([1e-8, -1e-10, 1e-12, -1e-13, 1e-15, -1e-17, 1e-20, -1e-30][i % 8])})
     for i in range(6 if tier == "quick" else 40):
         out.append({"model": "piecewise-exponential", "n": int(rng.integers(3, 12)), "scheme": "serial", "grid_style": "regular",
                     "entry": "data", "batch": 0, "seed": int(rng.integers(2**31))})
@@ -166,6 +172,8 @@ def build(case):
         sign = -1.0 if rng.random() < 0.5 else 1.0
         if case.get("steep_decline"):
             sign, mag = -1.0, float(case["steep_decline"]) / T
+        if case.get("tiny_growth"):
+            sign, mag = float(np.sign(case["tiny_growth"])), abs(float(case["tiny_growth"])) / T
         g = [sign * mag]
         d["growth"] = [[x * float(rng.uniform(0.5, 1.0))] for x in g * B] if B else g
     elif m == "skyride":
